@@ -116,11 +116,11 @@ def compatible(item, strict=True):
         return False          # same trait in two attributes: E0119 is the user's
     if 'Copy' in trl and 'ZeroizeOnDrop' in trl:
         return False          # E0184 (Copy type with a destructor) is the user's
-    for a in item.attrs:
-        if a.kind == 'repr' and a.repr_[0] == 'idents':
-            ids = [i.rust() for i in a.repr_[1]]
-            if 'C' in ids and len(ids) > 1 and all(v.shape == 'unit' for v in item.variants):
-                return False  # E0566 on unit-only enums
+    ids = [i.rust() for a in item.attrs if a.kind == 'repr' and a.repr_[0] == 'idents' for i in a.repr_[1]]
+    if 'C' in ids and len(ids) > 1 and all(v.shape == 'unit' for v in item.variants):
+        return False  # E0566 on unit-only enums
+    if len([i for i in ids if i != 'C']) > 1:
+        return False  # conflicting representation hints
     return True
 
 
